@@ -410,7 +410,8 @@ func (vc *VC) appendOp(cc *ssa.CallCommon, h *Heap) []string {
 	fits := vc.define("appfits", "Bool", "(<= "+newLen+" (s_cap "+s+"))")
 	// fresh object for the reallocation case
 	pre := h.clone()
-	o := vc.alloc(h, vc.curR, 0)
+	dynB, _ := vc.backingType(cc.Args[0].Type())
+	o := vc.alloc(h, vc.curR, dynB)
 	ncap := vc.declare(vc.fresh("appcap"), "Int")
 	vc.assume("(and (>= " + ncap + " " + newLen + ") (<= " + ncap + " " + maxLen + "))")
 	res := vc.define("append", "Slice", ite(fits,
